@@ -152,6 +152,7 @@ class World:
         self.problems = Problems(self)            # (key, what, step) found by the oracle
         self.phantom_blocks: Dict[str, int] = {}  # pending_conns leaked by a failed transfer
         self.pruned_all = False
+        self.orphans = set()
         self.seen_handles: Dict[int, int] = {}
         self.hist: Dict[str, int] = {}
 
@@ -217,6 +218,9 @@ class World:
             self.pool.release(r.db, c, discard=discard)
         except Exception as e:     # the real code refused a legitimate release
             self._rel_raised = True
+            # for the pool the connection is still lent (nothing changed); the request will not try again
+            r.state = 'refused'
+            self.holders[c] = r
             if not self.pruned_all:
                 self.problems.append(('release-raised', f'release({r.db},{c!r},discard={discard}) raised {e!r}'))
 
@@ -324,6 +328,7 @@ def task_view(w: World):
         'try_acq': {},         # block -> [(task, waiter future)]
         'prune_locals': [],    # conns sitting in a prune task's local list
         'disc_all_sched': [],  # prune_all's _disconnect tasks not started yet
+        'prune_by_task': {},   # task number -> the list a suspended prune task holds
     }
     for n, t in w.tasks.items():
         if t.done():
@@ -354,6 +359,7 @@ def task_view(w: World):
                 # until the gather starts the stolen conns only live in this list
                 if hasattr(top.cr_await, 'cr_frame'):     # inside `await block.try_acquire()`
                     v['prune_locals'] += list(loc['conns'])
+                    v['prune_by_task'][n] = list(loc['conns'])
         for c in chain:
             if c.cr_code.co_name == 'try_acquire' and c.cr_frame is not None:
                 l2 = c.cr_frame.f_locals
@@ -460,8 +466,20 @@ def oracle(w: World):
         if c.state != 'open':
             P(('held-dead', f'{c!r} held by request {r.id} is {c.state} for the backend'))
     # connections neither lent nor idle must be owned by a scheduled discard / a prune in progress
+    # a prune task that died (it received the abort error inside try_acquire) orphans its list
+    prev = getattr(w, '_prune_prev', {})
+    for n, cl in prev.items():
+        t = w.tasks[n]
+        if t.done() and not t.cancelled() and t.exception() is not None:
+            w.orphans.update(id(c) for c in cl)
+    w._prune_prev = v['prune_by_task']
     want = sorted([id(c) for (_b, c) in v['disc_sched']] + [id(c) for c in v['prune_locals']])
-    if sorted(id(c) for (_b, c) in limbo) != want and not w.pruned_all:
+    have = sorted(id(c) for (_b, c) in limbo)
+    if have != want and not w.pruned_all and set(have) - set(want) <= w.orphans and set(want) <= set(have):
+        P(('orphaned-by-dead-prune-task', f'connections {[c for _b, c in limbo if id(c) in w.orphans]} stay in '
+           f'block.conns forever (not idle, not lent, never closed, still counted): the '
+           f'prune_inactive_connections task that had taken them off the stack died'))
+    elif have != want and not w.pruned_all:
         P(('limbo-mismatch', f'connections neither lent nor idle: {[c for _b, c in limbo]}; scheduled discards: '
                              f'{[c for _b, c in v["disc_sched"]]}, prune locals: {v["prune_locals"]}'))
     # pool-level accounting: cur == sum(conns + pending) + disconnects in flight that are not transfers
@@ -1220,7 +1238,7 @@ C15_KEYS = {
     'over-capacity', 'usage-mismatch', 'negative-capacity', 'negative-counter', 'pending-mismatch',
     'stack-dup', 'conn-in-two-blocks', 'conn-wrong-block', 'dead-conn-in-block', 'inuse-unheld',
     'inuse-on-stack', 'held-not-inuse', 'stack-not-in-conns', 'acquired-mismatch', 'limbo-mismatch',
-    'accounting', 'leaked-conn', 'double-lend', 'step-nontermination', 'lend-dead', 'lend-wrong-db', 'lend-discarded',
+    'accounting', 'leaked-conn', 'double-lend', 'step-nontermination', 'orphaned-by-dead-prune-task', 'lend-dead', 'lend-wrong-db', 'lend-discarded',
     'lend-nonconn', 'disconnect-twice', 'release-raised', 'held-not-in-block', 'held-dead', 'block-name',
 }
 C16_KEYS = {
@@ -1267,7 +1285,9 @@ def run_check(ctx: 'core.Ctx', which: str):
     props = f'EdbVerif/Props/{which}.lean'
     required = {
         'C15': ['EdbVerif.C15.inv_init', 'EdbVerif.C15.inv_step', 'EdbVerif.C15.inv_run',
-                'EdbVerif.C15.usage_exact', 'EdbVerif.C15.capacity'],
+                'EdbVerif.C15.usage_exact', 'EdbVerif.C15.capacity', 'EdbVerif.C15.own_step',
+                'EdbVerif.C15.own_run', 'EdbVerif.C15.no_double_lend', 'EdbVerif.C15.lent_belongs',
+                'EdbVerif.C15.idle_is_free', 'EdbVerif.C15.block_counters'],
         'C16': ['EdbVerif.C16.no_lost_wakeup', 'EdbVerif.C16.waiters_consistent', 'EdbVerif.C16.waiters_step',
                 'EdbVerif.C16.abort_all', 'EdbVerif.C16.aborted_request_completes', 'EdbVerif.C16.woken_empty',
                 'EdbVerif.C16.C16_partial', 'EdbVerif.C16.C16_counterexample_gc_race',
